@@ -132,6 +132,23 @@ def c18_c(ctx: Ctx):
     ph = [n for n in body_nodes(g) if isinstance(n, ast.Call) and isinstance(n.func, ast.Attribute) and n.func.attr == "pop" and "_DictPlaceholder" in canon(n)]
     if ph:
         out.append(ctx.ok(R, g, ph[0], "the placeholder for nested mappings is removed from the reported values"))
+    # the values handed out must still be the typed index (a plain dict would merge 1 and 1.0 again)
+    ys = [n for n in body_nodes(g) if isinstance(n, ast.Yield) and isinstance(n.value, ast.Tuple) and len(n.value.elts) == 2]
+    for y in ys:
+        v = y.value.elts[1]
+        if isinstance(v, ast.Name):
+            d = common.reaching_def(ctx, g, v.id, y)
+            v = d if d is not None else v
+        t = canon(v).replace(" ", "")
+        if t.startswith("indexes[") or t.startswith("index.build_index("):
+            out.append(ctx.ok(R, g, y, "the per-key values are handed out as the typed index object itself"))
+        elif isinstance(v, (ast.DictComp, ast.Dict)) or (isinstance(v, ast.Call) and canon(v.func) in ("dict", "defaultdict", "collections.defaultdict")):
+            out.append(ctx.viol(R, g, y, f"the per-key values are copied into a plain dict ({t[:50]}): int and float values that compare equal (1 and 1.0) collapse into one entry, "
+                                "so detect_schema loses one of them"))
+        else:
+            out.append(ctx.inc(R, g, y, "yielded values: " + t[:60]))
+    from .lints import groupby_sorted
+    out += groupby_sorted(ctx, R, ("signac.project", "signac.schema", "signac.diff"))
     return out
 
 
